@@ -341,6 +341,7 @@ var entries = []struct {{
 }}{{
 {disp}
 	{{"tag", tagHop}},
+	{{"twin", twinHop}},
 }}
 
 func main() {{
@@ -374,6 +375,59 @@ import "{MODULE}/rep"
 func tagHop(a ...any) {{
 	keep("built with the tag")
 	rep.Report("tag")
+}}
+'''
+        # two packages with the SAME package name (different import paths) declaring the same identifiers, both on one trace:
+        # the reverse pairs of one must not shadow or replace those of the other (names are salted per package)
+        twin = '''package twin
+
+type Engine struct{ N int }
+
+//go:noinline
+func Hop(f func(...any)) {
+	f("twin")
+}
+
+//go:noinline
+func (e *Engine) Walk(f func(...any)) {
+	e.walk(f)
+}
+
+//go:noinline
+func (e *Engine) walk(f func(...any)) {
+	f(e.N)
+}
+'''
+        out["v1/twin/twin.go"] = twin
+        out["v2/twin/twin.go"] = twin
+        out["twin_main.go"] = f'''package main
+
+import (
+	"{MODULE}/rep"
+	twin1 "{MODULE}/v1/twin"
+	twin2 "{MODULE}/v2/twin"
+)
+
+func twinHop(a ...any) {{
+	twin1.Hop(twinMid)
+}}
+
+func twinMid(a ...any) {{
+	twin2.Hop(twinEng)
+}}
+
+func twinEng(a ...any) {{
+	e := &twin1.Engine{{N: 1}}
+	e.Walk(twinEng2)
+}}
+
+func twinEng2(a ...any) {{
+	e := &twin2.Engine{{N: 2}}
+	e.Walk(twinLeaf)
+}}
+
+func twinLeaf(a ...any) {{
+	rep.Report("twin")
 }}
 '''
         out["tag_off.go"] = f'''//go:build !t
@@ -791,7 +845,7 @@ def main(tier, seed):
                Config("-tags t", [], ["-tags", "t"])]
     sb = Sandbox(root / "sb", template=True)
     n_panic = 24 if tier == "quick" else 200
-    panic_tags = sorted(rng.sample(gen.entries, min(n_panic, len(gen.entries)))) + ["tag"]
+    panic_tags = sorted(rng.sample(gen.entries, min(n_panic, len(gen.entries)))) + ["tag", "twin"]
 
     # regular builds (with and without the tag)
     regular = {}
@@ -805,7 +859,7 @@ def main(tier, seed):
         if o.returncode != 0:
             raise Inconclusive(f"the regular program failed: rc={o.returncode}\n{o.stderr[-2000:]}")
         sk = [l for l in o.stdout.split("\n") if l.startswith(("BEGIN ", "END ", "STACK"))]
-        want_sk = [x for e in gen.entries + ["tag"] for x in (f"BEGIN {e}", "STACK", f"END {e}")]
+        want_sk = [x for e in gen.entries + ["tag", "twin"] for x in (f"BEGIN {e}", "STACK", f"END {e}")]
         if sk != want_sk:
             raise Inconclusive("the regular program's output is not the expected sequence of BEGIN/STACK/END blocks (generator problem)")
         ptxt = ""
